@@ -988,6 +988,13 @@ class yanny(OrderedDict):
         if len(contents) > 0:
             contents = ("# Appended by yanny.py at {0}.\n".format(timestamp) +
                         contents)
+            if len(self._contents) > 0 and not self._contents.endswith('\n'):
+                #
+                # The file does not end with a newline: terminate its last
+                # line, otherwise the marker is glued to that line and
+                # hides the line's own trailing comment from the reader.
+                #
+                contents = "\n" + contents
             if os.access(self.filename, os.W_OK):
                 with open(self.filename, 'a') as f:
                     f.write(contents)
